@@ -2030,86 +2030,59 @@ func (m *repoManager) getAncestry(v dvid.VersionID) ([]dvid.VersionID, error) {
 	return ancestors, nil
 }
 
-// recursive ancestor path following used to determine appropriate k/v pairs for given version.
-func (m *repoManager) findMatch(kvv kvVersions, v dvid.VersionID) (*storage.KeyValue, dvid.VersionID, error) {
-	// If we have a kv for this version, we're done.
-	n, found := kvv[v]
-	if found {
-		if n.invalid {
-			return nil, v, nil
+// findCandidates gathers, along every ancestor path up from v, the nearest version holding
+// a k/v (value or tombstone).  Each candidate found supersedes -- marks invalid -- every k/v
+// held by its own ancestors, whichever path reaches them.
+func (m *repoManager) findCandidates(kvv kvVersions, v dvid.VersionID, found map[dvid.VersionID]*storage.KeyValue) error {
+	n, ok := kvv[v]
+	if ok {
+		if !n.invalid {
+			if err := m.invalidateAncestors(kvv, v); err != nil {
+				return err
+			}
+			found[v] = n.kv
 		}
-		if err := m.invalidateAncestors(kvv, v); err != nil {
-			return nil, v, err
-		}
-		if n.kv.K.IsTombstone() {
-			return nil, v, nil
-		}
-		return n.kv, v, nil
+		return nil
 	}
-
-	// If we have a single parent, ascend.
 	parents, err := m.getParentsByVersion(v)
 	if err != nil {
+		return err
+	}
+	for _, parent := range parents {
+		if err := m.findCandidates(kvv, parent, found); err != nil {
+			return err
+		}
+	}
+	return nil
+}
+
+// ancestor graph traversal used to determine appropriate k/v pair for given version:
+// the one live (non-tombstone) k/v among the nearest ancestors-or-self of v that no other
+// candidate's lineage has superseded or deleted.  Two such k/v is an unresolved merge conflict.
+func (m *repoManager) findMatch(kvv kvVersions, v dvid.VersionID) (*storage.KeyValue, dvid.VersionID, error) {
+	found := make(map[dvid.VersionID]*storage.KeyValue)
+	if err := m.findCandidates(kvv, v, found); err != nil {
 		return nil, v, err
 	}
-	switch len(parents) {
+	var foundKV *storage.KeyValue
+	var foundV dvid.VersionID
+	var liveVs []dvid.VersionID
+	for fv, kv := range found {
+		// Candidates superseded by a later-visited path, and deletions, are not matches.
+		if kvv[fv].invalid || kv == nil || kv.K == nil || kv.K.IsTombstone() {
+			continue
+		}
+		foundKV = kv
+		foundV = fv
+		liveVs = append(liveVs, fv)
+	}
+	switch len(liveVs) {
 	case 0:
-		// No kv here.
 		return nil, 0, nil
 	case 1:
-		// Ascend the graph
-		return m.findMatch(kvv, parents[0])
+		return foundKV, foundV, nil
 	default:
-		// We have multiple parents so this is a merge.  Traverse each path up.
-		var foundKV *storage.KeyValue
-		var foundV dvid.VersionID
-		foundVs := make(map[dvid.VersionID]struct{})
-		for _, parent := range parents {
-			matchKV, matchV, err := m.findMatch(kvv, parent)
-			if err != nil {
-				return nil, parent, err
-			}
-			if matchKV != nil && matchKV.K != nil && !matchKV.K.IsTombstone() {
-				foundKV = matchKV
-				foundV = matchV
-				foundVs[matchV] = struct{}{}
-			}
-		}
-		// Remove any matches that are in invalidated versions.
-		badV := []dvid.VersionID{}
-		for fv := range foundVs {
-			n, found := kvv[fv]
-			if !found {
-				return nil, 0, fmt.Errorf("Got match (version %d) that wasn't in possible k/v!", fv)
-			}
-			if n.invalid {
-				badV = append(badV, fv)
-			}
-		}
-		if len(badV) > 0 {
-			for _, bv := range badV {
-				delete(foundVs, bv)
-			}
-		}
-		// Make sure we have only one kv on all paths up because if we do not,
-		// it's a failure in the past merge -- we should've had a kv at this
-		// or lower nodes.
-		switch len(foundVs) {
-		case 0:
-			return nil, 0, nil
-		case 1:
-			if foundKV.K == nil {
-				return nil, 0, fmt.Errorf("found nil key in ascending version path for kv: %v", foundKV)
-			}
-			// Return nil if tombstone
-			if foundKV.K.IsTombstone() {
-				return nil, v, nil
-			}
-			// Else return found kv pair
-			return foundKV, foundV, nil
-		default:
-			return nil, 0, fmt.Errorf("found multiple kv for key %v among parents: versions %v", foundKV.K, foundVs)
-		}
+		return nil, 0, fmt.Errorf("found multiple kv for key %v among ancestors: versions %v", foundKV.K, liveVs)
 	}
 }
 
